@@ -13,7 +13,7 @@ from .aggrun import GROUPS, KEYS, agg_class, call, evaluate_subject, header_row,
 from .fsrun import FS, LockV, PathV
 
 INFO = {
-    "explanation": "LOCKSET analysis on abstract runs of the concurrently callable methods (evaluate, _save_one_subject via evaluate, make_statistic) over the abstract file system: every file operation is logged with the locks held and the acquisition it belongs to. (R16.1) every access to the claim file holds inevalfilelock and every access to the output file holds filelock; (R16.2) the read of the claims, the duplicate test and the claim write belong to ONE acquisition of the claim lock, a duplicate name returns without evaluating or writing, and the evaluator runs only after the claim is written; (R16.3) one subject = one appended row, written under filelock in one acquisition; (R16.4) the lock-order graph over all runs is acyclic and (R16.5) no lock is re-acquired while held (the locks are not re-entrant); no lock is held while the evaluator runs; (R16.6) both locks are module-level multiprocessing.Lock objects created at import and the start method is set to fork on posix, locks are taken through `with` only (released on every exit); (R16.7) make_statistic reads the output file under filelock. Further delegated: R15.6/R05.5/R15.7 (objects shared by the threads of one aggregator keep no per-call state).",
+    "explanation": "LOCKSET analysis on abstract runs of the concurrently callable methods (evaluate, _save_one_subject via evaluate, make_statistic) over the abstract file system: every file operation is logged with the locks held and the acquisition it belongs to. (R16.1) every access to the claim file holds inevalfilelock and every access to the output file holds filelock; (R16.2) the read of the claims, the duplicate test and the claim write belong to ONE acquisition of the claim lock, a duplicate name returns without evaluating or writing, and the evaluator runs only after the claim is written; (R16.3) one subject = one appended row, written under filelock in one acquisition; (R16.4) the lock-order graph over all runs is acyclic and (R16.5) no lock is re-acquired while held (the locks are not re-entrant); no lock is held while the evaluator runs; (R16.6) both locks are module-level multiprocessing.Lock objects created at import and the start method is set to fork on posix, locks are taken through `with` only (released on every exit); (R16.7) make_statistic reads the output file under filelock; (R16.8) three copies of one aggregator (forked: handles and offsets shared; pickled: handles dropped) evaluating n1, n2, n1 in turn record n1 once. Further delegated: R15.6/R05.5/R15.7 (objects shared by the threads of one aggregator keep no per-call state).",
     "trusted_base": ["a multiprocessing.Lock created at import is shared by threads and by forked children", "a row appended and closed inside the lock is complete before the lock is released", "OS file append semantics"],
     "assumptions": ["workers are threads or forked processes of the process that imported the module"],
     "not_decided": ["exactly-once under real schedules is a consequence argued from the discipline, not observed", "spawn start method (Windows) - the module itself warns about it"],
@@ -58,7 +58,9 @@ def check_locks(ctx: Ctx):
     if not buf_ops or not out_ops:
         ctx.undecided("R16.1", ev, ev.node, base, "no claim-file / output-file access observed in evaluate")
     # R16.2 atomic check-then-claim
-    reads = [e for e in buf_ops if e[0] in ("read-rows", "raw-read")]
+    # looking at the claims: reading the rows, or establishing by the file's size that nothing was
+    # appended since they were read last
+    reads = [e for e in buf_ops if e[0] in ("read-rows", "raw-read", "stat")]
     writes = [e for e in buf_ops if e[0] == "append-row"]
     if reads and writes:
         rid = {x for x in reads[0][4] if x[0] == "inevalfilelock"}
@@ -135,7 +137,64 @@ def _run_rule(ctx, name, fn):
         return 0
 
 
+def check_worker_copies(ctx: Ctx):
+    """R16.8: copies of one aggregator - the children of a fork (object state copied, open file handles
+    and their kernel offsets shared) or unpickled copies - that evaluate one after the other see each
+    other's claims.  Whatever the aggregator remembers between calls (a parsed prefix of the claim file,
+    a file position) is private to a copy, while the files and an inherited handle's offset are shared.
+    History: copy A evaluates n1, copy B evaluates n2, copy C evaluates n1 again -> C must be refused."""
+    import copy as _copy
+
+    from .fsrun import FileH
+
+    prog = ctx.prog
+    cls = agg_class(prog)
+    ev = cls.lookup("evaluate")
+    for how in ("fork", "pickle"):
+        fs = FS()
+        agg, out, it0 = new_session(prog, fs, "/d/out.tsv")
+        if agg is None:
+            raise Undecided(f"aggregator constructor not evaluable: {out.kind} {out.exc}")
+        outp, bufp = _paths(agg)
+
+        def clone(o):
+            attrs = {}
+            for k, v in o.attrs.items():
+                if isinstance(v, FileH):
+                    attrs[k] = v if how == "fork" else None  # fork: same open file description; pickle: not carried over
+                elif isinstance(v, (list, dict, set)):
+                    attrs[k] = _copy.copy(v)
+                else:
+                    attrs[k] = v
+            return Obj(o.cls, attrs)
+
+        if how == "pickle":
+            gs = cls.lookup("__getstate__")
+            has_handle = any(isinstance(v, FileH) for v in agg.attrs.values())
+            if has_handle and gs is None:
+                ctx.violated("R16.8", ev, ev.node, "worker-copies:pickle", "an aggregator holding an open file cannot be sent to pool workers (pickling fails)", {"attributes": [k for k, v in agg.attrs.items() if isinstance(v, FileH)]})
+                continue
+        copies = [clone(agg) for _ in range(3)]
+        rows = []
+        okrun = True
+        for c, name in zip(copies, ("n1", "n2", "n1")):
+            o, _ = evaluate_subject(prog, c, fs, name, lock_objs=it0.root.lock_objs)
+            if o.decisions or (o.kind == "raise" and o.exc not in (None, "ValueError")):
+                ctx.undecided("R16.8", ev, o.node, f"worker-copies:{how}", f"history not evaluable: {o.kind} {o.exc}")
+                okrun = False
+                break
+            rows.append([r[0] for r in fs.files.get(outp, [])[1:]])
+        if not okrun:
+            continue
+        final = rows[-1]
+        ctx.decide("R16.8", ev, ev.node, f"worker-copies:{how}", "copies of one aggregator evaluating n1, n2, n1 one after the other record n1 once (a copy's private memory of the claim file is brought up to date from the shared file)", sorted(final) == ["n1", "n2"], {"rows_after_each_call": rows})
+
+
 def check(ctx: Ctx):
+    try:
+        check_worker_copies(ctx)
+    except (Undecided, AnchorMissing) as e:
+        ctx.undecided("R16.8", None, None, "R16.8:check_worker_copies", f"{type(e).__name__}: {e}")
     _run_rule(ctx, "check_locks", check_locks)
     # "rows carry the values a sequential run would produce": the objects shared by the threads of
     # one aggregator (evaluator, approximator, matcher) keep no per-call state (R15.6, R05.5, R15.7)
